@@ -1,0 +1,223 @@
+//go:build verif
+
+package lossless
+
+import "github.com/deepteams/webp/internal/bitio"
+
+// Thin wrappers around the unexported entropy-layer functions of the VP8L
+// codec for the external verification harness (suite "vp8lentropy").
+// They add no behaviour of their own.
+
+// VerifTableErr classifies the error of BuildHuffmanTable: "" | "empty" | "invalid".
+func VerifTableErr(err error) string {
+	switch err {
+	case nil:
+		return ""
+	case ErrEmptyCodeLengths:
+		return "empty"
+	default:
+		return "invalid"
+	}
+}
+
+// VerifBuildHuffmanTableSize is buildHuffmanTableSize.
+func VerifBuildHuffmanTableSize(rootBits int, codeLengths []int) int {
+	return buildHuffmanTableSize(rootBits, codeLengths)
+}
+
+// VerifGetNextKey is getNextKey.
+func VerifGetNextKey(key uint32, length int) uint32 { return getNextKey(key, length) }
+
+// VerifDecodeSymbols decodes up to max symbols from data, starting at bit
+// startBit, the way the decoder does: readSymbolFromTree (FillBitWindow,
+// ReadSymbol, SetBitPos) for the 8-bit root tables, and the one-level lookup
+// of readHuffmanCodeLengths for any other root size (valid when no code is
+// longer than rootBits). It stops at end of stream. end is "eos", "max" or
+// "sentinel" (ReadSymbol's -1).
+func VerifDecodeSymbols(table []HuffmanCode, rootBits int, data []byte, startBit, max int) (syms []int, end string) {
+	br := bitio.NewLosslessReader(data)
+	for startBit > 0 {
+		n := startBit
+		if n > 24 {
+			n = 24
+		}
+		br.ReadBits(n)
+		startBit -= n
+	}
+	if br.IsEndOfStream() {
+		return nil, "eos"
+	}
+	for len(syms) < max {
+		var val int
+		if rootBits == HuffmanTableBits {
+			v, ok := readSymbolFromTree(table, br)
+			if !ok {
+				return syms, "sentinel"
+			}
+			val = v
+		} else {
+			br.FillBitWindow()
+			prefetch := br.PrefetchBits()
+			entry := table[prefetch&uint32((1<<rootBits)-1)]
+			br.SetBitPos(br.BitPos() + int(entry.Bits))
+			val = int(entry.Value)
+		}
+		if br.IsEndOfStream() {
+			return syms, "eos"
+		}
+		syms = append(syms, val)
+	}
+	return syms, "max"
+}
+
+// VerifCanonicalCodes runs generateCanonicalCodes on a tree with the given
+// code lengths and zeroed codes.
+func VerifCanonicalCodes(codeLengths []uint8) []uint16 {
+	t := &HuffmanTreeCode{NumSymbols: len(codeLengths), CodeLengths: append([]uint8(nil), codeLengths...),
+		Codes: make([]uint16, len(codeLengths))}
+	generateCanonicalCodes(t)
+	return t.Codes
+}
+
+// VerifReverseBits is reverseBits.
+func VerifReverseBits(v uint32, nBits int) uint16 { return reverseBits(v, nBits) }
+
+// VerifCodeLengthTokens is BuildCodeLengthTokens, unpacked.
+func VerifCodeLengthTokens(codeLengths []uint8) (codes, extras []uint8) {
+	for _, t := range BuildCodeLengthTokens(codeLengths) {
+		codes = append(codes, t.code)
+		extras = append(extras, t.extraBits)
+	}
+	return
+}
+
+// VerifCodeLengthTree returns the code lengths storeFullHuffmanCode obtains
+// from CreateHuffmanTree(tokenHistogram, 7) for the given code lengths.
+func VerifCodeLengthTree(codeLengths []uint8) []uint8 {
+	var hist [CodeLengthCodes]uint32
+	for _, t := range BuildCodeLengthTokens(codeLengths) {
+		hist[t.code]++
+	}
+	return append([]uint8(nil), CreateHuffmanTree(hist[:], 7).CodeLengths...)
+}
+
+// verifTreeOfLengths builds the HuffmanTreeCode CreateHuffmanTree would
+// return had it chosen the given lengths (canonical codes assigned).
+func verifTreeOfLengths(codeLengths []uint8) *HuffmanTreeCode {
+	t := &HuffmanTreeCode{NumSymbols: len(codeLengths), CodeLengths: append([]uint8(nil), codeLengths...),
+		Codes: make([]uint16, len(codeLengths))}
+	generateCanonicalCodes(t)
+	return t
+}
+
+// VerifStoreHuffmanCode runs StoreHuffmanCode on a fresh writer.
+func VerifStoreHuffmanCode(codeLengths []uint8) []byte {
+	bw := bitio.NewLosslessWriter(64)
+	StoreHuffmanCode(bw, verifTreeOfLengths(codeLengths))
+	return append([]byte(nil), bw.Finish()...)
+}
+
+// VerifCopyBlock32 runs copyBlock32 on a copy of data.
+func VerifCopyBlock32(data []uint32, pos, dist, length int) []uint32 {
+	out := append([]uint32(nil), data...)
+	copyBlock32(out, pos, dist, length)
+	return out
+}
+
+// VerifRef is a PixOrCopy in open form. Kind: 0 literal, 1 cache index, 2 copy
+// (Dist is a pixel distance).
+type VerifRef struct {
+	Kind int
+	Argb uint32
+	Idx  int
+	Len  int
+	Dist int
+}
+
+// VerifEntropyImage is the result of VerifEncodeEntropyImage.
+type VerifEntropyImage struct {
+	Bytes  []byte
+	Lens   [HuffmanCodesPerMetaCode][]uint8 // CreateHuffmanTree's choice per tree
+	CLLens [HuffmanCodesPerMetaCode][]uint8 // code-length tree lengths (full codes only)
+	Planes []int                            // plane codes of the copies, in order
+}
+
+// VerifEncodeEntropyImage writes one entropy-coded image (colour-cache info,
+// five prefix codes, pixel data) for the given token list with the encoder's
+// own functions: BackwardReferences2DLocality, Histogram.AddRefs,
+// CreateHuffmanTree, StoreHuffmanCode, clearHuffmanTreeIfOnlyOneSymbol,
+// storeImageData. argb are the pixels the tokens stand for (used only by
+// storeImageData's private colour cache).
+func VerifEncodeEntropyImage(width, height, cacheBits int, refs []VerifRef, argb []uint32) VerifEntropyImage {
+	br := NewBackwardRefs(len(refs))
+	for _, r := range refs {
+		switch r.Kind {
+		case 0:
+			br.Add(LiteralPixel(r.Argb))
+		case 1:
+			br.Add(CachePixel(r.Idx))
+		default:
+			br.Add(CopyPixel(r.Len, r.Dist))
+		}
+	}
+	BackwardReferences2DLocality(width, br)
+	var res VerifEntropyImage
+	for i := range br.refs {
+		if br.refs[i].IsCopy() {
+			res.Planes = append(res.Planes, br.refs[i].Distance())
+		}
+	}
+	h := NewHistogram(cacheBits)
+	h.AddRefs(br, width, cacheBits)
+	codes := [HuffmanCodesPerMetaCode]*HuffmanTreeCode{
+		CreateHuffmanTree(h.Literal, MaxAllowedCodeLength),
+		CreateHuffmanTree(h.Red[:], MaxAllowedCodeLength),
+		CreateHuffmanTree(h.Blue[:], MaxAllowedCodeLength),
+		CreateHuffmanTree(h.Alpha[:], MaxAllowedCodeLength),
+		CreateHuffmanTree(h.Distance[:], MaxAllowedCodeLength),
+	}
+	bw := bitio.NewLosslessWriter(64)
+	if cacheBits > 0 {
+		bw.WriteBits(1, 1)
+		bw.WriteBits(uint32(cacheBits), 4)
+	} else {
+		bw.WriteBits(0, 1)
+	}
+	for j := 0; j < HuffmanCodesPerMetaCode; j++ {
+		res.Lens[j] = append([]uint8(nil), codes[j].CodeLengths...)
+		res.CLLens[j] = VerifCodeLengthTree(codes[j].CodeLengths)
+		StoreHuffmanCode(bw, codes[j])
+		clearHuffmanTreeIfOnlyOneSymbol(codes[j])
+	}
+	enc := &Encoder{argb: argb, width: width, height: height, currentWidth: width}
+	enc.storeImageData(bw, br, []uint16{0}, [][HuffmanCodesPerMetaCode]*HuffmanTreeCode{codes}, width, 0, cacheBits)
+	res.Bytes = append([]byte(nil), bw.Finish()...)
+	return res
+}
+
+// VerifDecodeEntropyImage runs the decoder's decodeSubImage (colour-cache
+// info, readHuffmanCodes without meta codes, decodeImageData) on data.
+func VerifDecodeEntropyImage(data []byte, width, height int) ([]uint32, error) {
+	dec := &Decoder{br: bitio.NewLosslessReader(data)}
+	return dec.decodeSubImage(width, height)
+}
+
+// VerifWriteBits runs a sequence of WriteBits calls and Finish.
+func VerifWriteBits(vals []uint32, nbits []int) []byte {
+	bw := bitio.NewLosslessWriter(16)
+	for i := range vals {
+		bw.WriteBits(vals[i], nbits[i])
+	}
+	return append([]byte(nil), bw.Finish()...)
+}
+
+// VerifReadBits runs a sequence of ReadBits calls; eos[i] is IsEndOfStream()
+// after call i.
+func VerifReadBits(data []byte, nbits []int) (vals []uint32, eos []bool) {
+	br := bitio.NewLosslessReader(data)
+	for _, n := range nbits {
+		vals = append(vals, br.ReadBits(n))
+		eos = append(eos, br.IsEndOfStream())
+	}
+	return
+}
